@@ -419,6 +419,11 @@ class Array(AbstractValueWithQuantityObject, Generic[ValuesType]):
             q1 = p1.GetQuantity()
             q2 = p2.GetQuantity()
 
+        if kept_quantity is not None:
+            # The quantity is kept as it is, so the values are combined as plain numbers (a quantity
+            # holding two units of one quantity type would otherwise have its values converted).
+            q1 = q2 = Quantity.CreateEmpty()
+
         unit_database = self.GetUnitDatabase()
         operation_func = getattr(unit_database, operation)
 
